@@ -1,8 +1,8 @@
 import PetgraphModel.Proofs.CsrReaders
 /-
 C05, wave 3 — `Csr`: the node readers (`node_identifiers`, `node_references`, `IntoNeighbors::neighbors`)
-against the abstract simple graph, the capacity of the index type along a history, and the index-type wrap of
-`add_node` (finding D31).
+against the abstract simple graph, the capacity of the index type along a history, and `add_node` at that
+capacity (finding D31, repaired by commit 8cab180: the documented panic, structure unchanged, no wrapped index).
 -/
 set_option linter.style.nameCheck false
 namespace PetgraphModel.CsrProofs
@@ -15,39 +15,47 @@ theorem SG.addEdge_n (g : SG) (a b : Nat) (w : Int) : (g.addEdge a b w).1.n = g.
   · rfl
 
 /-- node count of the abstract graph after a call -/
-theorem specStep_n (g : SG) (op : Op) : (specStep g op).1.n = nodesAfter g.n op := by
+theorem specStep_n (m : Nat) (g : SG) (op : Op) : (specStep m g op).1.n = nodesAfterC m g.n op := by
   cases op with
-  | addNode w => simp [specStep, SG.addNode, SG.n, nodesAfter]
+  | addNode w =>
+    by_cases h : m = 0 ∨ g.n < m
+    · have h' : m = 0 ∨ g.nodes.length < m := h
+      simp [specStep, SG.addNodeCap_fit m g w h, SG.addNode, SG.n, nodesAfterC, h']
+    · simp [specStep, SG.addNodeCap_full m g w h, nodesAfterC, h]
   | clearEdges => rfl
   | tryAddEdge a b w => exact SG.addEdge_n g a b w
   | addEdge a b w =>
     have := SG.addEdge_n g a b w
-    simp only [specStep, nodesAfter]
+    simp only [specStep, nodesAfterC]
     split <;> (rename_i h; rw [h] at this; exact this)
   | setWeight a w =>
-    simp only [specStep, SG.setWeight, nodesAfter]
+    simp only [specStep, SG.setWeight, nodesAfterC]
     split
     · rename_i h; split at h
       · injection h with h; subst h; simp [SG.n]
       · cases h
     · rfl
 
-/-- a history within the capacity of the index type ends within it -/
-theorem fits_cap (m : Nat) (ops : List Op) (g : SG) (hf : Fits m g.n ops) (hc : m = 0 ∨ g.n ≤ m) :
-    m = 0 ∨ (specRun g ops).1.n ≤ m := by
+/-- no call takes the node count beyond the capacity of the index type -/
+theorem nodesAfterC_cap (m n : Nat) (op : Op) (hc : m = 0 ∨ n ≤ m) : m = 0 ∨ nodesAfterC m n op ≤ m := by
+  cases op with
+  | addNode w => simp only [nodesAfterC]; split <;> omega
+  | clearEdges => exact hc
+  | tryAddEdge a b w => exact hc
+  | addEdge a b w => exact hc
+  | setWeight a w => exact hc
+
+/-- **every** history that starts within the capacity of the index type ends within it (`add_node` panics
+rather than exceed it) -/
+theorem run_cap (m : Nat) (ops : List Op) (g : SG) (hc : m = 0 ∨ g.n ≤ m) :
+    m = 0 ∨ (specRun m g ops).1.n ≤ m := by
   induction ops generalizing g with
   | nil => exact hc
   | cons op ops ih =>
-    show m = 0 ∨ (specRun (specStep g op).1 ops).1.n ≤ m
+    show m = 0 ∨ (specRun m (specStep m g op).1 ops).1.n ≤ m
     apply ih
-    · rw [specStep_n]; exact hf.2
-    · rw [specStep_n]
-      cases op with
-      | addNode w => have := hf.1 w rfl; simp only [nodesAfter]; omega
-      | clearEdges => exact hc
-      | tryAddEdge a b w => exact hc
-      | addEdge a b w => exact hc
-      | setWeight a w => exact hc
+    rw [specStep_n]
+    exact nodesAfterC_cap m g.n op hc
 
 /-- `node_identifiers()` / `node_references()` without any capacity assumption: the position is passed
 through `Ix::new` -/
@@ -83,10 +91,10 @@ theorem node_readers {s : State} {R : List Row} {g : SG} (good : Good s R) (abs 
   exact ⟨h1, h2⟩
 
 /-- **the node readers after every history** (plus `IntoNeighbors::neighbors`, which is `neighbors_slice`) -/
-theorem run_node_readers (d : Bool) (m c : Nat) (dbg : Bool) (n : Nat) (ops : List Op) (hf : Fits m n ops)
+theorem run_node_readers (d : Bool) (m c : Nat) (dbg : Bool) (n : Nat) (ops : List Op)
     (hn : m = 0 ∨ n ≤ m) :
     let s := (run (withNodes d m c dbg n) ops).1
-    let g := (specRun { directed := d, nodes := List.replicate n 0, edges := [] } ops).1
+    let g := (specRun m { directed := d, nodes := List.replicate n 0, edges := [] } ops).1
     nodeIdentifiers s = List.range g.n ∧ nodeReferences s = (List.range g.n).zip g.nodes ∧
     s.nodeCount = g.n ∧
     ∀ a, a < g.n → neighborsSlice s a = some ((g.succ a).map (·.1)) := by
@@ -95,13 +103,11 @@ theorem run_node_readers (d : Bool) (m c : Nat) (dbg : Bool) (n : Nat) (ops : Li
     refine ⟨rfl, rfl, ?_, ?_⟩
     · intro a b; rw [look_replicate_nil]; rfl
     · unfold State.edgeCountQ withNodes SG.edgeCount; cases d <;> rfl
-  have hf' : Fits (withNodes d m c dbg n).modulus (List.replicate n ([] : Row)).length ops := by
-    simpa [withNodes] using hf
-  obtain ⟨R, good, abs, _, sp⟩ := run_refines (good_withNodes d m c dbg n) abs0 ops hf'
+  obtain ⟨R, good, abs, _, sp⟩ := run_refines (good_withNodes d m c dbg n) abs0 ops
   have hcap : s.modulus = 0 ∨ g.n ≤ s.modulus := by
     have : s.modulus = m := sp.2.1
     rw [this]
-    exact fits_cap m ops _ (by simpa [SG.n] using hf) (by simpa [SG.n] using hn)
+    exact run_cap m ops _ (by simpa [SG.n] using hn)
   obtain ⟨h1, h2⟩ := node_readers good abs hcap
   exact ⟨h1, h2, (readers good abs 0).2.2.2.2, fun a ha => ((readers good abs a).1 ha).1⟩
 
@@ -110,25 +116,108 @@ def outIx : Out → Option Nat
   | .ix i => some i
   | _ => none
 
-/-! ### finding D31: `add_node` wraps at the capacity of the index type -/
+/-- `panic` as a boolean test (`Out` has no decidable equality) -/
+def outPanic : Out → Bool
+  | .panic => true
+  | _ => false
 
-/-- in general: at or beyond the capacity (`modulus ≤ node_count`, `modulus ≠ 0`) `add_node` returns
-`node_count % modulus` — the index of a node that already exists — while the specification answers the fresh
-index `node_count`; the representation invariant itself survives (the new row is there, only the returned
-index — and every later `Ix::new(i)` for `i ≥ modulus` — is wrong). -/
-theorem addNode_wraps {s : State} {R : List Row} {g : SG} (good : Good s R) (abs : Abs s R g)
-    (hm : s.modulus ≠ 0) (hc : s.modulus ≤ g.n) (w : Int) :
-    (step s (.addNode w)).2 = .ix (g.n % s.modulus) ∧ g.n % s.modulus < g.n ∧
-    (specStep g (.addNode w)).2 = .ix g.n ∧
-    (step s (.addNode w)).2 ≠ (specStep g (.addNode w)).2 ∧
-    Good (step s (.addNode w)).1 (R ++ [[]]) := by
-  have hn := Abs.n good abs
-  have hlt : g.n % s.modulus < g.n :=
-    Nat.lt_of_lt_of_le (Nat.mod_lt _ (Nat.pos_of_ne_zero hm)) hc
-  obtain ⟨s', e, good', _⟩ := good.addNode w
-  have hmk : mkIx s.modulus R.length = g.n % s.modulus := by simp [mkIx, hm, hn]
-  refine ⟨by simp [step, e, hmk], hlt, rfl, ?_, by simpa [step, e] using good'⟩
-  simp only [step, e, hmk, specStep, SG.addNode]
-  intro h; injection h with h; omega
+/-! ### `add_node` at the capacity of the index type (finding D31, repaired) -/
+
+/-- **`add_node` and the capacity of the index type, in every valid state.**  At the capacity (`modulus ≠ 0`,
+`modulus ≤ node_count`; `u8`: 256 nodes) `add_node` panics — `none` — and the state is unchanged; below it the
+call succeeds, returns the FRESH index `node_count` (which fits the index type, so `Ix::new` does not change it)
+and the graph has one node more. -/
+theorem addNode_capacity {s : State} {R : List Row} (good : Good s R) (w : Int) :
+    (¬ (s.modulus = 0 ∨ s.nodeCount < s.modulus) →
+      CsrM.addNode s w = none ∧ step s (.addNode w) = (s, .panic)) ∧
+    (s.modulus = 0 ∨ s.nodeCount < s.modulus →
+      ∃ s', CsrM.addNode s w = some (s', s.nodeCount) ∧ step s (.addNode w) = (s', .ix s.nodeCount) ∧
+        Good s' (R ++ [[]]) ∧ s'.nodeCount = s.nodeCount + 1 ∧ s'.nodeWeights = s.nodeWeights ++ [w] ∧
+        mkIx s.modulus s.nodeCount = s.nodeCount) := by
+  rw [good.rep.nodeCount]
+  refine ⟨fun h => ?_, fun h => ?_⟩
+  · have e := good.addNode_full w h
+    exact ⟨e, by simp [step, e]⟩
+  · obtain ⟨s', e, good', _, hnw, _⟩ := good.addNode w h
+    refine ⟨s', e, by simp [step, e], good', ?_, hnw, mkIx_of_fits h⟩
+    rw [good'.rep.nodeCount]; simp
+
+/-- **no wrap in any history**: along every history from a valid state whose node count is within the capacity
+of the index type, every node index that `add_node` returns fits the index type (`< modulus`), equals the node
+count at the time of the call (it is fresh), and the node count never exceeds the capacity. -/
+theorem run_no_wrap {s : State} {R : List Row} (good : Good s R) (hc : s.modulus = 0 ∨ R.length ≤ s.modulus)
+    (ops : List Op) :
+    (s.modulus = 0 ∨ (run s ops).1.nodeCount ≤ s.modulus) ∧
+    ∀ i, some i ∈ (run s ops).2.map outIx → (s.modulus = 0 ∨ i < s.modulus) ∧ R.length ≤ i := by
+  induction ops generalizing s R with
+  | nil => exact ⟨by show _ ∨ s.nodeCount ≤ _; rw [good.rep.nodeCount]; exact hc, by intro i hi; simp [run] at hi⟩
+  | cons op ops ih =>
+    obtain ⟨R1, good1, sp1, hl1, hout⟩ : ∃ R1, Good (step s op).1 R1 ∧ SameParams (step s op).1 s ∧
+        R1.length = nodesAfterC s.modulus R.length op ∧
+        ∀ i, outIx (step s op).2 = some i → (s.modulus = 0 ∨ i < s.modulus) ∧ i = R.length := by
+      cases op with
+      | addNode w =>
+        by_cases hfit : s.modulus = 0 ∨ R.length < s.modulus
+        · obtain ⟨s', e, good', sp, _⟩ := good.addNode w hfit
+          refine ⟨R ++ [[]], by simpa [step, e] using good', by simpa [step, e] using sp,
+            by simp [nodesAfterC, hfit], ?_⟩
+          intro i hi
+          simp only [step, e, outIx, Option.some.injEq] at hi
+          subst hi; exact ⟨hfit, rfl⟩
+        · have e := good.addNode_full w hfit
+          refine ⟨R, by simpa [step, e] using good, by simpa [step, e] using SameParams.refl s,
+            by simp [nodesAfterC, hfit], ?_⟩
+          intro i hi; simp [step, e, outIx] at hi
+      | clearEdges =>
+        exact ⟨_, good.clearEdges, ⟨rfl, rfl, rfl, rfl⟩, by simp [nodesAfterC], by intro i hi; simp [step, outIx] at hi⟩
+      | setWeight a w =>
+        by_cases ha : a < R.length
+        · obtain ⟨s', e, good', sp, _⟩ := good.setWeight a w ha
+          exact ⟨R, by simpa [step, e] using good', by simpa [step, e] using sp, rfl,
+            by intro i hi; simp [step, e, outIx] at hi⟩
+        · have e := good.setWeight_oob a w ha
+          exact ⟨R, by simpa [step, e] using good, by simpa [step, e] using SameParams.refl s, rfl,
+            by intro i hi; simp [step, e, outIx] at hi⟩
+      | tryAddEdge a b w =>
+        by_cases hr : a < R.length ∧ b < R.length
+        · by_cases hp : look R a b = none
+          · obtain ⟨s', R', e, good', sp, _, hl, _⟩ := good.tryAddEdge_absent a b w hr.1 hr.2 hp
+            exact ⟨R', by simpa [step, e] using good', by simpa [step, e] using sp, hl,
+              by intro i hi; simp [step, e, outIx] at hi⟩
+          · have e := good.tryAddEdge_present a b w hr.1 hr.2 hp
+            exact ⟨R, by simpa [step, e] using good, by simpa [step, e] using SameParams.refl s, rfl,
+              by intro i hi; simp [step, e, outIx] at hi⟩
+        · have e := good.tryAddEdge_oob a b w hr
+          exact ⟨R, by simpa [step, e] using good, by simpa [step, e] using SameParams.refl s, rfl,
+            by intro i hi; simp [step, e, outIx] at hi⟩
+      | addEdge a b w =>
+        by_cases hr : a < R.length ∧ b < R.length
+        · by_cases hp : look R a b = none
+          · obtain ⟨s', R', e, good', sp, _, hl, _⟩ := good.tryAddEdge_absent a b w hr.1 hr.2 hp
+            exact ⟨R', by simpa [step, CsrM.addEdge, e] using good', by simpa [step, CsrM.addEdge, e] using sp, hl,
+              by intro i hi; simp [step, CsrM.addEdge, e, outIx] at hi⟩
+          · have e := good.tryAddEdge_present a b w hr.1 hr.2 hp
+            exact ⟨R, by simpa [step, CsrM.addEdge, e] using good,
+              by simpa [step, CsrM.addEdge, e] using SameParams.refl s, rfl,
+              by intro i hi; simp [step, CsrM.addEdge, e, outIx] at hi⟩
+        · have e := good.tryAddEdge_oob a b w hr
+          exact ⟨R, by simpa [step, CsrM.addEdge, e] using good,
+            by simpa [step, CsrM.addEdge, e] using SameParams.refl s, rfl,
+            by intro i hi; simp [step, CsrM.addEdge, e, outIx] at hi⟩
+    have hm : (step s op).1.modulus = s.modulus := sp1.2.1
+    have hc1 : (step s op).1.modulus = 0 ∨ R1.length ≤ (step s op).1.modulus := by
+      rw [hm, hl1]; exact nodesAfterC_cap _ _ op hc
+    have hge : R.length ≤ R1.length := by
+      rw [hl1]; cases op <;> simp only [nodesAfterC] <;> (try split) <;> omega
+    obtain ⟨ih1, ih2⟩ := ih good1 hc1
+    rw [hm] at ih1 ih2
+    refine ⟨by simpa [run] using ih1, ?_⟩
+    intro i hi
+    simp only [run, List.map_cons, List.mem_cons] at hi
+    rcases hi with hi | hi
+    · obtain ⟨h1, h2⟩ := hout i hi.symm
+      exact ⟨h1, by omega⟩
+    · obtain ⟨h1, h2⟩ := ih2 i hi
+      exact ⟨h1, by omega⟩
 
 end PetgraphModel.CsrProofs
